@@ -106,6 +106,9 @@ fn in_pool<R>(pool: &Arc<PoolState>, f: impl FnOnce() -> R) -> R {
     pool.enter();
     set_current(Some(pool.clone()));
     let r = catch_unwind(AssertUnwindSafe(f));
+    if r.is_err() {
+        verif_rt::release_deferred();
+    }
     set_current(prev.clone());
     pool.leave();
     if let Some(p) = &prev {
@@ -298,6 +301,7 @@ impl ScopeState {
     }
     fn run_job(&self, job: Job) {
         if let Err(p) = catch_unwind(AssertUnwindSafe(job)) {
+            verif_rt::release_deferred();
             self.record_panic(p);
         }
     }
@@ -375,6 +379,9 @@ where
             _marker: PhantomData,
         };
         let r = catch_unwind(AssertUnwindSafe(|| op(&sc)));
+        if r.is_err() {
+            verif_rt::release_deferred();
+        }
         // The owner helps: it runs what is still queued (newest first, as a
         // rayon worker pops its own deque) ...
         loop {
@@ -504,9 +511,13 @@ where
             // SAFETY: index i is ours alone.
             let item = unsafe { input.take(i) }.expect("item claimed twice");
             let mut out = Vec::new();
-            match catch_unwind(AssertUnwindSafe(|| g(i, item, &mut out))) {
+            match catch_unwind(AssertUnwindSafe(|| {
+                verif_rt::fault_point("par_item");
+                g(i, item, &mut out)
+            })) {
                 Ok(()) => unsafe { output.put(i, out) },
                 Err(p) => {
+                    verif_rt::release_deferred();
                     stop.store(true, std::sync::atomic::Ordering::Relaxed);
                     let mut fp = first_panic.lock().unwrap();
                     if fp.is_none() {
